@@ -12,7 +12,7 @@ CONSTANTS Variant, Emit      \* Variant: "none" | "numerical_ignored" (the tool 
 DVals == {"default", "absolute", "numerical", "levenshtein"}
 OutVals == {"print", "csv", "json"}
 Opts == [d : DVals, out : OutVals, c : BOOLEAN, k : BOOLEAN,
-         a : {"default", "3"}, b : {"default", "2"}, e : {"default", "2", "0.5"},
+         a : {"default", "3", "0"}, b : {"default", "2", "0"}, e : {"default", "2", "0.5"},
          m : BOOLEAN, p : {"default", "0.3"}, n : {"default", "4"}, s : {"default", ";"},
          f : {"csv", "rttm"}, files : {1, 2}, seed : {"0", "4772"}]
 
